@@ -149,7 +149,35 @@ impl Report {
       cmd.env("GBMC_JIT_BIN", j);
     }
     let t = Instant::now();
-    let st = cmd.stdout(std::process::Stdio::null()).status();
+    // wall cap inside the engine: generous (the release profile is faster than this one), but a
+    // rerun that never ends must not take the whole check with it
+    let cap = std::time::Duration::from_secs_f64((self.t0.elapsed().as_secs_f64() * 20.0).max(180.0));
+    {
+      use std::os::unix::process::CommandExt;
+      cmd.process_group(0);
+    }
+    let st = match cmd.stdout(std::process::Stdio::null()).spawn() {
+      Ok(mut child) => loop {
+        match child.try_wait() {
+          Ok(Some(s)) => break Ok(s),
+          Ok(None) => {
+            if t.elapsed() > cap {
+              // the rerun runs in a process group of its own: its pool workers go with it
+              unsafe {
+                libc::kill(-(child.id() as i32), libc::SIGKILL);
+              }
+              let _ = child.kill();
+              let _ = child.wait();
+              self.machinery.push(format!("release-profile rerun did not finish within {:.0} s (20 x this profile's time) and was stopped", cap.as_secs_f64()));
+              return;
+            }
+            std::thread::sleep(std::time::Duration::from_millis(20));
+          },
+          Err(e) => break Err(e),
+        }
+      },
+      Err(e) => Err(e),
+    };
     match st {
       Ok(s) if matches!(s.code(), Some(0) | Some(1) | Some(2)) => {},
       Ok(s) => {
